@@ -298,9 +298,18 @@ def run_sequence(rng, calls=None, ck=None):
             ck.n += 1
             if xf is not gf or not any(t[0] is xf and t[1] is xf for t in F.list_of_points):
                 ck.v("fixed_point_not_recorded", "fixed_point() did not record (x, x, fx)")
-        elif c == "prox":
+        elif c == "prox" and rng.random() < 0.5:
             xn, gx, fx = proximal_step(x, F, rng.choice([1.0, 0.5, 2.0]))
             pts.extend([xn, gx])
+            check_return(ck, F, xn, gx, fx, [], "proximal_step")
+        elif c == "prox":
+            # the inexact proximal step hands back two samples of F: (x, gx, fx) and (w, v, fw)
+            from PEPit.primitive_steps import inexact_proximal_step
+            opt = rng.choice(["PD_gapI", "PD_gapII", "PD_gapIII"])
+            xn, gx, fx, w, v, fw, _eps = inexact_proximal_step(x, F, rng.choice([1.0, 0.5, 2.0]), opt=opt)
+            pts.extend([xn, gx])
+            check_return(ck, F, xn, gx, fx, [], "inexact_proximal_step:" + opt)
+            check_return(ck, F, w, v, fw, [], "inexact_proximal_step:" + opt)
         elif c == "newpoint":
             k = rng.randint(2, 3)
             p = None
